@@ -428,6 +428,9 @@ class _Signs:
             return out or ANY
         if k == "UnaryOperator" and n.get("op") == "*":
             return self.sign(n["c"][0], depth + 1)
+        if k == "ConditionalOperator":
+            # c ? a : b -- the same as the two assignments of an if/else
+            return _join(self.sign(n.get("then"), depth + 1), self.sign(n.get("else"), depth + 1))
         if k == "BinaryOperator" and n.get("op") == "*":
             return _mul(self.sign(n["c"][0], depth + 1), self.sign(n["c"][1], depth + 1))
         if k == "CXXOperatorCallExpr" and n.get("op") in ("[]", "()") and len(n.get("c", [])) >= 3:
